@@ -208,26 +208,30 @@ func c18(w *core.World, r *core.Report) {
 		if f == nil {
 			continue
 		}
-		for _, ret := range core.Returns(f) {
-			e := errorOperand(ret)
-			if e == nil || !core.IsNilConst(e) {
-				continue
-			}
-			okFailed := false
-			for _, g := range core.GuardsOf(ret) {
-				x, nilOnTrue, isNil := core.NilTest(g.If.Cond)
-				if isNil && nilOnTrue == g.CondTrue() && strings.HasSuffix(core.FieldOf(x), "NetconfResponse.Failed") {
-					okFailed = true
+		core.WithHost(f, func() {
+			for _, ret := range nilErrorReturns(f, 0) {
+				okFailed := false
+				for _, at := range core.GuardAtoms(ret) {
+					x, nilOnTrue, isNil := core.NilTest(at.Cond)
+					if !isNil || nilOnTrue != at.True {
+						continue
+					}
+					// resp.Failed, possibly seen through a parameter of the helper that evaluates the reply
+					for _, o := range append(core.Origins(x), x) {
+						if strings.HasSuffix(core.FieldOf(o), "NetconfResponse.Failed") {
+							okFailed = true
+						}
+					}
 				}
-			}
-			okErr := false
-			for _, c := range core.Calls(f) {
-				if cc, isCall := c.(*ssa.Call); isCall && strings.HasPrefix(core.CalleeKey(c), "github.com/scrapli/scrapligo/driver/netconf.Driver.") && core.GuardedByErrNil(ret, cc) {
-					okErr = true
+				okErr := false
+				for _, c := range core.Calls(f) {
+					if cc, isCall := c.(*ssa.Call); isCall && strings.HasPrefix(core.CalleeKey(c), "github.com/scrapli/scrapligo/driver/netconf.Driver.") && core.GuardedByErrNil(ret, cc) {
+						okErr = true
+					}
 				}
+				r.Check(okFailed && okErr, "DRIVER-OUTCOME", core.Site(f, "success only if !Failed"), w.InstrPos(ret), "success must imply the library call succeeded and the reply carries no rpc-error")
 			}
-			r.Check(okFailed && okErr, "DRIVER-OUTCOME", core.Site(f, "success only if !Failed"), w.InstrPos(ret), "success must imply the library call succeeded and the reply carries no rpc-error")
-		}
+		})
 	}
 
 	// dispatch
@@ -283,4 +287,34 @@ func guardedByNonEmptyDoc(x ssa.Instruction) bool {
 		}
 	}
 	return false
+}
+
+// nilErrorReturns: the return instructions through which f yields a nil error: its own returns with the nil constant
+// and, where f returns the result of a virtually inlined helper, that helper's.
+func nilErrorReturns(f *ssa.Function, depth int) []*ssa.Return {
+	var out []*ssa.Return
+	for _, ret := range core.Returns(f) {
+		e := errorOperand(ret)
+		if e == nil {
+			continue
+		}
+		if core.IsNilConst(e) {
+			out = append(out, ret)
+			continue
+		}
+		if depth > 2 {
+			continue
+		}
+		var c *ssa.Call
+		switch x := e.(type) {
+		case *ssa.Call:
+			c = x
+		case *ssa.Extract:
+			c, _ = x.Tuple.(*ssa.Call)
+		}
+		if c != nil && core.InlinedCallee(c) != nil {
+			out = append(out, nilErrorReturns(core.InlinedCallee(c), depth+1)...)
+		}
+	}
+	return out
 }
